@@ -34,8 +34,8 @@ PROPS = {
 }
 # runs per flavour; sizes; determinism-gate sample; wall-clock cap of the sweeps (s)
 TIERS = {
-    "quick": dict(runs=dict(C03=40000, C04=40000, C05=30000, C08=12000, C12=30000, C17=60000, C18=12000, C19=20000), maxlog=9, maxlog_tree=6, max_copy=9000, gate=200, cap_s=150),
-    "thorough": dict(runs=dict(C03=60000, C04=50000, C05=50000, C08=30000, C12=60000, C17=120000, C18=24000, C19=40000), maxlog=12, maxlog_tree=8, max_copy=70000, gate=3000, cap_s=900),
+    "quick": dict(runs=dict(C03=40000, C04=40000, C05=30000, C08=12000, C12=30000, C17=60000, C18=12000, C19=20000), maxlog=9, maxlog_tree=6, max_copy=9000, gate=200, cap_s=150, cold=320),
+    "thorough": dict(runs=dict(C03=60000, C04=50000, C05=50000, C08=30000, C12=60000, C17=120000, C18=24000, C19=40000), maxlog=12, maxlog_tree=8, max_copy=70000, gate=3000, cap_s=900, cold=3200),
 }
 MAX_EVENTS = 60  # violating runs per flavour that are classified (replayed) individually
 MAX_MINIMISE = 3  # distinct violation signatures that are minimised and written as replay files
@@ -68,15 +68,18 @@ class Sweep:
         self.timed_out = False
         self.first = indices_from
         self.prefix = []  # e.g. valgrind
+        self.cold = False  # one run per fresh process, simulated execution before the reference run
         self.lock = threading.Lock()
 
     def cmd(self, start):
-        c = list(self.prefix) + [self.binary, "--worker", "--profile", self.profile, "--seed", str(self.base), "--start", str(start), "--stride", str(self.w), "--end", str(self.n),
+        c = list(self.prefix) + [self.binary, "--worker", "--profile", self.profile, "--seed", str(self.base), "--start", str(start), "--stride", str(self.w), "--end", str(start + 1 if self.cold else self.n),
              "--maxlog", str(self.lim["maxlog"]), "--maxlog-tree", str(self.lim["maxlog_tree"]), "--max-copy", str(self.lim["max_copy"])]
         if "avx512" in self.flavour:
             c.append("--avx512")
         if self.samples:
             c.append("--samples")
+        if self.cold:
+            c.append("--cold")
         return c
 
     def worker(self, wid):
@@ -124,6 +127,9 @@ class Sweep:
                 killer.cancel()
             rc = p.wait()
             et.join(timeout=2)
+            if done and self.cold:
+                start += self.w
+                continue
             if done:
                 return
             if time.time() > self.deadline:
@@ -576,6 +582,18 @@ def main():
         log("sweep %-11s runs=%d wall=%.1fs crashes=%d sanitizer=%d fatals=%d restarts=%d%s" % (f, len(sw.results), sw.wall, len(sw.crashes), len(sw.sanitizer), len(sw.fatals), sw.restarts,
                                                                                           "  (stopped at the wall-clock cap)" if sw.timed_out else ""))
 
+    # ---- cold-start runs: one run per fresh process, the simulated multi-member execution is the first
+    #      library code the process executes (lazily initialised process-global state, first-use races)
+    ncold = int(os.environ.get("VERIF_COLD_RUNS", T["cold"]))
+    for k, sw0 in enumerate(list(sweeps)):
+        if sw0.flavour.startswith("asan") or ncold <= 0:
+            continue
+        cs = Sweep(sw0.binary, sw0.flavour, prop, sw0.base + 104729, ncold, NPROC, dict(sw0.lim, maxlog=min(sw0.lim["maxlog"], 7)), deadline + 60, samples=False)
+        cs.cold = True
+        cs.run()
+        log("cold  %-11s runs=%d wall=%.1fs (one fresh process per run, simulated execution first) crashes=%d" % (cs.flavour, len(cs.results), cs.wall, len(cs.crashes)))
+        sweeps.append(cs)
+
     # ---- valgrind memcheck over the uninstrumented (as shipped -O3) build: thorough tier of C18 ----------
     vg_sweep = None
     if prop == "C18" and tier == "thorough" and shutil.which("valgrind"):
@@ -601,7 +619,11 @@ def main():
         g = min(T["gate"], sw.n)
         for wcount in (5, 1):
             gg = g if wcount == 5 else max(20, g // 8)
-            s2 = Sweep(sw.binary, sw.flavour, sw.profile, sw.base, gg, wcount, sw.lim, time.time() + 300).run()
+            if sw.cold:
+                gg = min(gg, 48)
+            s2 = Sweep(sw.binary, sw.flavour, sw.profile, sw.base, gg, wcount, sw.lim, time.time() + 300)
+            s2.cold = sw.cold
+            s2.run()
             for i, r in s2.results.items():
                 if i in sw.results:
                     gate_checked += 1
@@ -613,9 +635,13 @@ def main():
             if c1 != c2 and not sw.timed_out:
                 gate_ok = False
                 log("nondeterminism: %s crash sets differ %s vs %s" % (sw.flavour, c1[:5], c2[:5]))
-    if not gate_ok:
-        harness_error("determinism gate failed")
-    log("determinism gate: %d (index, hash) pairs re-executed in fresh processes at worker counts 5 and 1: identical" % gate_checked)
+    if gate_ok:
+        log("determinism gate: %d (index, hash) pairs re-executed in fresh processes at worker counts 5 and 1: identical" % gate_checked)
+    else:
+        # decided after the violations: a change that gives the library process-global mutable state makes warm
+        # runs depend on what the worker ran before; the cold-start runs (fresh process each) stay exact, and a
+        # violation found and replayed there is reported as such.  Without one the check ends with exit 2.
+        log("determinism gate FAILED for the long-lived workers (results depend on process history)")
 
     # ---- violations --------------------------------------------------------------------------------
     os.makedirs(REPLAYS, exist_ok=True)
@@ -626,7 +652,8 @@ def main():
     handled = {}
     total_viol_runs = 0
     skipped_events = 0
-    for sw in sweeps:
+    unreproducible = []
+    for sw in sorted(sweeps, key=lambda x: not x.cold):
         events = []  # (index, seed, plan or None)
         for i, r in sorted(sw.results.items()):
             if not r["ok"]:
@@ -645,7 +672,8 @@ def main():
                 rep = run_replay(sw.binary, plan)
                 fs = findings_of(rep, plan, sw.binary)
                 if not fs:
-                    harness_error("run %d of %s died in the sweep but its plan replays clean (seed %d)" % (i, sw.flavour, s))
+                    unreproducible.append("run %d of %s died in the sweep but its plan replays clean (seed %d)" % (i, sw.flavour, s))
+                    continue
             mine = [f for f in fs if prop in f["props"]]
             for f in fs:
                 if f not in mine:
@@ -665,14 +693,17 @@ def main():
                 # gate: the same seed twice more in fresh processes, same finding
                 ok2 = all(has_finding(run_replay(sw.binary, plan), plan, prop, signature(f), sw.binary) for _ in range(2))
                 if not ok2:
-                    harness_error("violation %s of run %d (%s, seed %d) does not reproduce from its plan" % (f["cls"], i, sw.flavour, s))
+                    unreproducible.append("violation %s of run %d (%s, seed %d) does not reproduce from its plan in a fresh process" % (f["cls"], i, sw.flavour, s))
+                    handled.pop(sig, None)
+                    continue
                 small, runs = minimise(sw.binary, plan, prop, signature(f), budget_s=60 if tier == "quick" else 240)
                 small["property"] = prop
                 small["flavour"] = sw.flavour
                 rep = run_replay(sw.binary, small)
                 ff = has_finding(rep, small, prop, signature(f), sw.binary)
                 if not ff:
-                    harness_error("minimised plan of run %d does not reproduce" % i)
+                    unreproducible.append("minimised plan of run %d does not reproduce" % i)
+                    continue
                 small["outcome"] = ff["cls"]
                 small["report"] = "op#%d %s: %s -- %s" % (ff["op"], ff["kind"], ff["oracle"], ff["detail"])
                 small["found_by"] = dict(tier=tier, verif_seed=seed, index=i, run_seed=s, minimisation_runs=runs)
@@ -683,7 +714,9 @@ def main():
                 # fresh-process replay of the file itself
                 rep2 = run_replay_file(sw.binary, path)
                 if not has_finding(rep2, small, prop, signature(f), sw.binary):
-                    harness_error("replay file %s does not reproduce" % path)
+                    unreproducible.append("replay file %s does not reproduce" % path)
+                    os.unlink(path)
+                    continue
                 kn = [e for e in known if known_match(e, prop, ff, small)]
                 if kn:
                     known_hits.append((kn[0], path))
@@ -700,14 +733,18 @@ def main():
         log("NOTE: runs of this sweep also showed findings that belong to %s (%s); they are reported by that property's check" % (p_, ", ".join(sorted(clss))))
 
     # ---- evidence -----------------------------------------------------------------------------------
-    write_evidence(prop, tier, seed, sweeps, infos, gate_checked, violations, known_hits, total_viol_runs, time.time() - t_start, T, lim)
+    write_evidence(prop, tier, seed, sweeps, infos, gate_checked, violations, known_hits, total_viol_runs, time.time() - t_start, T, lim, gate_ok)
     if violations:
         sys.exit(1)
+    if unreproducible or not gate_ok:
+        for u in unreproducible[:5]:
+            log("unreproducible: " + u)
+        harness_error("determinism gate failed" if not gate_ok else "violations seen in the sweep do not reproduce in fresh processes")
     log("OK %s %s: %d simulated runs, no violation" % (prop, tier, sum(len(s.results) for s in sweeps)))
     sys.exit(0)
 
 
-def write_evidence(prop, tier, seed, sweeps, infos, gate_checked, violations, known_hits, viol_runs, wall, T, lim):
+def write_evidence(prop, tier, seed, sweeps, infos, gate_checked, violations, known_hits, viol_runs, wall, T, lim, gate_ok=True):
     os.makedirs(EVID, exist_ok=True)
     evals = 0
     distinct = set()
@@ -724,7 +761,7 @@ def write_evidence(prop, tier, seed, sweeps, infos, gate_checked, violations, kn
     for sw in sweeps:
         pf = dict(runs=len(sw.results), wall_s=round(sw.wall, 2), crashes=len(sw.crashes), sanitizer_reports=len(sw.sanitizer), no_progress=len(sw.fatals), worker_restarts=sw.restarts, stopped_at_cap=sw.timed_out,
                   runs_per_hour=int(len(sw.results) / max(sw.wall, 1e-3) * 3600))
-        per_flavour[sw.flavour] = pf
+        per_flavour[sw.flavour + ("/cold-start" if sw.cold else "") + ("/valgrind" if sw.prefix else "")] = pf
         for i, r in sw.results.items():
             evals += 1
             shapes.add((sw.flavour, r["shape"]))
@@ -774,7 +811,7 @@ def write_evidence(prop, tier, seed, sweeps, infos, gate_checked, violations, kn
             "max_team_histogram": {str(k): v for k, v in sorted(team_hist.items())},
             "reach_probes": dict(sorted(probes.items())),
             "reach_probes_stuck_at_zero": stuck,
-            "determinism_gate": {"pairs_reexecuted": gate_checked, "result": "identical"},
+            "determinism_gate": {"pairs_reexecuted": gate_checked, "result": "identical" if gate_ok else "FAILED"},
             "per_flavour": per_flavour,
             "components": {
                 "real_code": ["every translation unit of /repo/src (" + ", ".join(infos[sweeps[0].flavour]["repo_units"]) + ") and all headers, compiled from the working tree; header-inline code through sim/shim.cpp"],
